@@ -36,3 +36,47 @@ func VerifC08DHCPPacket(mode int, dir int, maxN int) {
 	verifDropGoroutines()
 	verifReach("processed")
 }
+
+// VerifC08DHCPOptionsTemplate: options area made of a message-type option with a length of 0, 1 or 2, a second
+// option (server identifier / requested address / client id / lease time / parameter list) with a length of 0, 4
+// or 7, arbitrary values, with or without the end marker: every combination, both directions.
+func VerifC08DHCPOptionsTemplate(mode int, dir int) {
+	h, s, _, hostMAC := verifDHCPSetup(Mode(mode))
+	l1 := verifChoose(3)
+	c2 := []byte{54, 50, 61, 51, 55}[verifChoose(5)]
+	l2 := []int{0, 4, 7}[verifChoose(3)]
+	end := verifChoose(2)
+	var opts []byte
+	opts = append(opts, 53, byte(l1))
+	opts = append(opts, verifBytes(l1)...)
+	opts = append(opts, c2, byte(l2))
+	opts = append(opts, verifBytes(l2)...)
+	if end != 0 {
+		opts = append(opts, 255)
+	}
+	total := 14 + 20 + 8 + 240 + len(opts)
+	b := verifBytes(total)
+	verifAssume(b[6]&1 == 0 && verifMACDiff(b[6:12], hostMAC) != 0)
+	b[12], b[13], b[14] = 0x08, 0x00, 0x45
+	tl := total - 14
+	b[16], b[17], b[14+9] = byte(tl>>8), byte(tl), 17
+	u := 34
+	if dir == 0 {
+		b[u], b[u+1], b[u+2], b[u+3] = 0, 68, 0, 67
+	} else {
+		b[u], b[u+1], b[u+2], b[u+3] = 0, 67, 0, 68
+	}
+	ul := total - 34
+	b[u+4], b[u+5] = byte(ul>>8), byte(ul)
+	d := b[42:]
+	d[236], d[237], d[238], d[239] = 99, 130, 83, 99
+	copy(d[240:], opts)
+	frame, err := s.Parse(b)
+	if err != nil || frame.PayloadID != packet.PayloadDHCP4 {
+		verifReach("processed")
+		return
+	}
+	_ = h.ProcessPacket(frame)
+	verifDropGoroutines()
+	verifReach("processed")
+}
